@@ -382,6 +382,12 @@ def check_valid(ctx, name, p, data, rep):
 
 # ----------------------------------------------------------------------------- oracle
 def oracle(ctx, volume=1):
+    ctx.notes = ["that MT19937 / scipy.stats.multinomial sample the stated distribution is trusted; the 7-sigma frequency check in the oracle is a test, not a proof",
+                 "float rounding of the running cumulative sum is not modelled: theorems are over exact rationals, the correspondence uses dyadic vectors "
+                 "(exact float sums) on the boundaries and keeps 1e-9 away from them otherwise",
+                 "generate_empi_dist_sequence_from_prob_dist draws an independent multinomial sample per sample size (not cumulative); cumulative consistency "
+                 "is claimed and checked for calc_empi_dist_sequence only",
+                 "calc_empi_dist_sequence silently returns [] when the first sample size is <= 0 (mirrored by the model, excluded by hypothesis in empi_counts)"]
     g = ctx.npgen(2)
     vecs = prob_vectors(ctx, g, (120 if ctx.quick else 1000) * volume)
     # (a) inversion: range, non-zero probability, the interval [c_{i-1}, c_i)
